@@ -280,6 +280,12 @@ func (fr *Frame) scanContract(w *writeSet, fc *FuncContract, sig *types.Signatur
 		switch {
 		case t.all, t.pkgHeaps != "", t.heapName != "":
 			w.all = true
+		case t.isElems:
+			for hn := range t.eHeaps {
+				if srt := fr.top.heapSorts[hn]; srt != "" {
+					w.add(hn, srt)
+				}
+			}
 		case t.isField:
 			for k, hn := range t.heaps {
 				w.add(hn, ArrSort(SInt, t.sorts[k]))
